@@ -782,14 +782,14 @@ class Expr:
         # Process then branch
         self.builder.append_block(then_block)
         self.builder.set_block(then_block)
-        then_val = Expr(node.body, self.ctx).lower_value()
+        then_val = self._lower_ifexp_branch(node.body, node._metadata["type"])
         then_block_finish = self.builder.current_block
         then_block_finish.append_instruction("assign", then_val, ret=result)
 
         # Process else branch
         self.builder.append_block(else_block)
         self.builder.set_block(else_block)
-        else_val = Expr(node.orelse, self.ctx).lower_value()
+        else_val = self._lower_ifexp_branch(node.orelse, node._metadata["type"])
         else_block_finish = self.builder.current_block
         else_block_finish.append_instruction("assign", else_val, ret=result)
 
@@ -808,6 +808,22 @@ class Expr:
         if result_typ._is_prim_word:
             return VyperValue.from_stack_op(result, result_typ)
         return self._make_ptr_value(result, DataLocation.MEMORY, result_typ)
+
+    def _lower_ifexp_branch(self, branch: vy_ast.VyperNode, result_typ) -> IROperand:
+        """Lower one branch of a ternary. The annotated type of the ternary is the
+        type expected by the context, which may be wider than the type of the
+        branch; a branch is laid out according to ITS type, so normalise it into a
+        buffer of the result type when the layouts differ."""
+        from vyper.codegen_venom.context import _same_memory_layout
+
+        vv = Expr(branch, self.ctx).lower()
+        val = self.ctx.unwrap(vv)
+        if result_typ._is_prim_word or vv.typ is None or _same_memory_layout(vv.typ, result_typ):
+            return val
+        tmp = self.ctx.new_temporary_value(result_typ)
+        assert isinstance(tmp.operand, IRVariable)
+        self.ctx.store_memory(val, tmp.operand, result_typ, src_typ=vv.typ)
+        return tmp.operand
 
     # === Subscript Operations ===
 
